@@ -112,4 +112,154 @@ example : ∃ r : V3 ℝ, cutoff < r.norm ∧ r.norm < π ∧ cutoff < Real.sin 
   have := Real.sin_gt_sub_cube (x := 1 / 2) (by norm_num)
   rw [cutoff_val]; linarith [show (1 / 10000 : ℝ) < 1 / 2 - (1 / 2) ^ 3 / 6 by norm_num]
 
+/-! ## exp ∘ log, the double cover, norm of differences -/
+
+/-- on unit quaternions with `w ≥ 0` outside the cut-off the conversions are mutually inverse -/
+theorem exp_log (q : Q ℝ) (hq : q.normSq = 1) (hw : 0 ≤ q.w) (h : cutoff < q.vec.norm) :
+    quatExp (quatLog q) = q := quatExp_quatLog q hq hw h
+
+/-- `q` and `-q` are treated as the same rotation: same rotation vector (away from the exact half
+    turn `w = 0`, where the two results are `± π v/‖v‖`, the same rotation again) -/
+theorem log_neg (q : Q ℝ) (hw : q.w ≠ 0) : quatLog q.neg = quatLog q := quatLog_neg_eq q hw
+
+theorem log_neg_half_turn (q : Q ℝ) (hw : q.w = 0) (h : cutoff < q.vec.norm) :
+    quatLog q.neg = (quatLog q).neg ∧ (quatLog q).norm = π := by
+  have h' : cutoff < q.neg.vec.norm := by rw [vec_neg_norm]; exact h
+  have hw' : q.neg.w = 0 := by simp [Q.neg, hw]
+  constructor
+  · rw [quatLog_pos _ h' (by rw [hw']), quatLog_pos _ h (by rw [hw]), vec_neg_norm, hw, hw']
+    ext <;> simp only [Q.neg, V3.neg] <;> ring
+  · rw [quatLog_norm q h, hw, abs_zero, Real.arccos_zero]; ring
+
+/-- for `w < 0` the round trip returns the other representative of the same rotation -/
+theorem exp_log_neg_branch (q : Q ℝ) (hq : q.normSq = 1) (hw : q.w < 0) (h : cutoff < q.vec.norm) :
+    quatExp (quatLog q) = q.neg := by
+  rw [← quatLog_neg_eq q hw.ne]
+  exact quatExp_quatLog q.neg (by rw [normSq_neg]; exact hq) (by simp only [Q.neg]; linarith)
+    (by rw [vec_neg_norm]; exact h)
+
+/-- rotation vectors returned by the logarithm (hence all differences) never exceed `π` in norm;
+    in the regular branch the norm is `2 acos |w|` -/
+theorem diff_norm_le_pi (ql qr : Q ℝ) : (quatDiff ql qr).norm ≤ π := quatLog_norm_le_pi _
+
+theorem log_norm (q : Q ℝ) (h : cutoff < q.vec.norm) : (quatLog q).norm = 2 * Real.arccos |q.w| :=
+  quatLog_norm q h
+
+/-- negating either operand of a difference does not change it -/
+theorem diff_neg_left (p q : Q ℝ) (hw : (p.mul q.conj).w ≠ 0) : quatDiff p.neg q = quatDiff p q := by
+  unfold quatDiff; rw [neg_mul']; exact quatLog_neg_eq _ hw
+
+/-! ## sum and difference are inverse to each other -/
+
+/-- subtracting `q` from `q ⊕ r` is `log(exp r)` exactly (unit `q`) … -/
+theorem diff_sum_eq (q : Q ℝ) (hq : q.normSq = 1) (r : V3 ℝ) :
+    quatDiff (quatSum q r) q = quatLog (quatExp r) := quatDiff_quatSum q hq r
+
+/-- … hence gives back `r` when both cut-offs are cleared (in particular for `2.00000001e-4 ≤ ‖r‖ < π`) … -/
+theorem diff_sum (q : Q ℝ) (hq : q.normSq = 1) (r : V3 ℝ) (h1 : 2.00000001e-4 ≤ r.norm) (h2 : r.norm < π) :
+    quatDiff (quatSum q r) q = r := by
+  rw [quatDiff_quatSum q hq r]; exact log_exp_exact_range r h1 h2
+
+/-- … and up to `2 arcsin(1e-4) < 2.00000001e-4` for every `‖r‖ < π`. -/
+theorem diff_sum_error (q : Q ℝ) (hq : q.normSq = 1) (r : V3 ℝ) (h2 : r.norm < π) :
+    ((quatDiff (quatSum q r) q).sub r).norm ≤ 2 * Real.arcsin cutoff := by
+  rw [quatDiff_quatSum q hq r]; exact (log_exp_error r h2).1
+
+/-- adding the difference `p ⊖ q` to `q` gives back `p` (as a rotation: `p` or `-p`) -/
+theorem sum_diff (p q : Q ℝ) (hp : p.normSq = 1) (hq : q.normSq = 1)
+    (h : cutoff < (p.mul q.conj).vec.norm) :
+    (0 < (p.mul q.conj).w → quatSum q (quatDiff p q) = p) ∧
+    ((p.mul q.conj).w < 0 → quatSum q (quatDiff p q) = p.neg) := by
+  have hu : (p.mul q.conj).normSq = 1 := by rw [normSq_mul, normSq_conj, hp, hq, mul_one]
+  constructor
+  · intro hpos
+    rw [quatSum_quatDiff, quatExp_quatLog _ hu hpos.le h, mul_conj_mul_cancel p q hq]
+  · intro hneg
+    rw [quatSum_quatDiff, exp_log_neg_branch _ hu hneg h, neg_mul', mul_conj_mul_cancel p q hq]
+
+/-- non-vacuity of `exp_log` / `sum_diff`: the unit quaternion `(0.6, 0.8, 0, 0)` -/
+example : ∃ q : Q ℝ, q.normSq = 1 ∧ 0 ≤ q.w ∧ cutoff < q.vec.norm := by
+  refine ⟨⟨0.6, 0.8, 0, 0⟩, by simp [Q.normSq]; norm_num, by norm_num, ?_⟩
+  have : (⟨0.6, 0.8, 0, 0⟩ : Q ℝ).vec.norm = 0.8 := by
+    rw [V3.norm_def]; simp only [Q.vec]
+    rw [show (0.8 : ℝ) ^ 2 + 0 ^ 2 + 0 ^ 2 = 0.8 ^ 2 by ring]; exact Real.sqrt_sq (by norm_num)
+  rw [this, cutoff_val]; norm_num
+
+/-! ## weighted mean (`mean_quaternion`): eigenvector contract -/
+
+section mean
+open Matrix
+variable {n : Nat}
+
+/-- The contract of the `Eigen::EigenSolver` call, on the model's matrix `Σ w_i q_i q_iᵀ`: the returned
+    vector is a unit eigenvector whose eigenvalue is maximal.  Checked numerically on every observed
+    call by the correspondence check. -/
+def MeanContract (eig : Mat ℝ 4 4 → Q ℝ) (w : Vec ℝ n) (q : Mat ℝ 4 n) : Prop :=
+  IsDominantEigvec (toM (outerMean w q)) (eig (outerMean w q)).get
+
+/-- the model's matrix is `Σ_i w_i q_i q_iᵀ` -/
+theorem mean_matrix (w : Vec ℝ n) (q : Mat ℝ 4 n) (a b : Fin 4) :
+    toM (outerMean w q) a b = ∑ i, w i * q a i * q b i := by
+  rw [toM_outerMean]; rfl
+
+/-- the mean is a unit quaternion -/
+theorem mean_unit (eig : Mat ℝ 4 4 → Q ℝ) (w : Vec ℝ n) (q : Mat ℝ 4 n) (h : MeanContract eig w q) :
+    (quatMean eig w q).normSq = 1 := by
+  rw [← get_dot_self]; exact h.1
+
+/-- negating any inputs leaves `Σ w_i q_i q_iᵀ` unchanged: the same vectors satisfy the contract and any
+    deterministic eigen-solver returns the same quaternion -/
+theorem mean_sign_invariant (eig : Mat ℝ 4 4 → Q ℝ) (w : Vec ℝ n) (q q' : Mat ℝ 4 n) (s : Fin n → ℝ)
+    (hs : ∀ i, s i = 1 ∨ s i = -1) (hq' : ∀ a i, q' a i = s i * q a i) :
+    outerMean w q' = outerMean w q ∧ quatMean eig w q' = quatMean eig w q := by
+  have h : outerMean w q' = outerMean w q := by
+    apply toM_injective
+    rw [toM_outerMean, toM_outerMean]
+    have : colsOf q' = fun i => s i • colsOf q i := by
+      funext i a; simp [colsOf, hq']
+    rw [this, outerSum_sign _ _ s hs]
+  exact ⟨h, by unfold quatMean; rw [h]⟩
+
+/-- permuting the inputs (with their weights) leaves `Σ w_i q_i q_iᵀ` unchanged -/
+theorem mean_perm_invariant (eig : Mat ℝ 4 4 → Q ℝ) (w w' : Vec ℝ n) (q q' : Mat ℝ 4 n)
+    (σ : Equiv.Perm (Fin n)) (hw' : ∀ i, w' i = w (σ i)) (hq' : ∀ a i, q' a i = q a (σ i)) :
+    outerMean w' q' = outerMean w q ∧ quatMean eig w' q' = quatMean eig w q := by
+  have h : outerMean w' q' = outerMean w q := by
+    apply toM_injective
+    rw [toM_outerMean, toM_outerMean]
+    have h1 : colsOf q' = fun i => colsOf q (σ i) := by funext i a; simp [colsOf, hq']
+    have h2 : toV w' = fun i => toV w (σ i) := by funext i; simp [hw']
+    rw [h1, h2, outerSum_perm]
+  exact ⟨h, by unfold quatMean; rw [h]⟩
+
+theorem eq_of_get_eq {u v : Q ℝ} (h : u.get = v.get) : u = v := by
+  rw [← ofFn_get u, ← ofFn_get v, h]
+
+/-- all inputs `± q0`, total weight positive: `q0` satisfies the contract, and every result satisfying
+    the contract is `q0` or `-q0` -/
+theorem mean_all_equal (eig : Mat ℝ 4 4 → Q ℝ) (w : Vec ℝ n) (q : Mat ℝ 4 n) (q0 : Q ℝ)
+    (hq0 : q0.normSq = 1) (hq : ∀ i, Q.ofCol q i = q0 ∨ Q.ofCol q i = q0.neg) (hsum : 0 < ∑ i, w i) :
+    IsDominantEigvec (toM (outerMean w q)) q0.get ∧
+    (MeanContract eig w q → quatMean eig w q = q0 ∨ quatMean eig w q = q0.neg) := by
+  classical
+  let s : Fin n → ℝ := fun i => if Q.ofCol q i = q0 then 1 else -1
+  have hs : ∀ i, s i = 1 ∨ s i = -1 := fun i => by
+    by_cases h : Q.ofCol q i = q0 <;> simp [s, h]
+  have hcols : colsOf q = fun i => s i • q0.get := by
+    funext i
+    rw [colsOf_eq]
+    by_cases h : Q.ofCol q i = q0
+    · simp [s, h]
+    · have h2 := (hq i).resolve_left h
+      have hsi : s i = -1 := by simp [s, h]
+      rw [hsi, h2, get_neg, neg_smul, one_smul]
+  have hd := all_equal_dominant (toV w) s hs q0.get (by rw [get_dot_self, hq0]) hsum
+  rw [← hcols, ← toM_outerMean] at hd
+  refine ⟨hd.1, fun hcon => ?_⟩
+  rcases hd.2 _ hcon with h | h
+  · left; exact eq_of_get_eq h
+  · right; apply eq_of_get_eq; rw [get_neg]; exact h
+
+end mean
+
 end BFL.Quat
